@@ -39,6 +39,9 @@ pub fn check(v: &View, vd: &mut Verdict) {
                 vd.class("join_races_submission");
                 nt = true;
             }
+            if matches!(o.what, OpWhat::Consume | OpWhat::ConsumeSync) && o.begin == v.alive_until(a) {
+                vd.class("consume_is_first_cause");
+            }
             match &o.res {
                 Some(OpRes::Joined(Some(fv))) => {
                     if handed_out {
